@@ -48,7 +48,7 @@ def config(rng, tier):
     deep = tier == "thorough"
     return {
         "regime": rng.choice(["grid", "grid", "decimal"]),
-        "labels": rng.choice(["plain", "punct", "empty", "padded", "unicode"]),
+        "labels": rng.choice(["plain", "punct", "empty", "padded", "unicode", "numeric"]),
         "pad_inserts": True,
         "steps": rng.randrange(2, 31 if deep else 13),
         "probe_p": 1.0 if deep else 0.4,
@@ -57,7 +57,8 @@ def config(rng, tier):
         "xio": rng.random() < 0.25,
         "tg_span": rng.choice(["none", "given", "given"]),
         "maxn": rng.choice([8] * 22 + [24, 40]),
-        "names": rng.choice(["abcd"] * 5 + ["prefix", "odd", "unicode"]),
+        "names": rng.choice(["abcd"] * 5 + ["prefix", "odd", "unicode", "braces", "nfc", "glob"]),
+        "warn_error": rng.random() < 0.15,  # run under warnings.simplefilter("error")
         "crash": rng.random() < 0.15,  # inject crashes at arbitrary lines inside mutators (observation only)
     }
 
@@ -226,6 +227,12 @@ class C13Oracle(Oracle):
             return
         if fchanged:
             self.fail("no-mutation", name, f"file-changed/{how}", {"step": brief, "files": fchanged})
+        if name == "tier.iterpair" and out.ok:
+            # two iterations of one tier going on at the same time are independent of each other
+            want = [(e, e) for e in recv.entries]
+            if [(tuple(a), tuple(b)) for a, b in out.result] != [(tuple(a), tuple(b)) for a, b in want]:
+                self.fail("no-mutation", name, "concurrent-iterations-interfere",
+                          {"step": brief, "pairs": repr(out.result)[:300], "entries": repr(recv.entries)[:300]})
         if out.ok and kind == "copy":
             r = out.result
             if r is recv or any(r is a for a in out.args) or any(r is a for a in out.kwargs.values()):
@@ -431,7 +438,7 @@ def tier_catalogue(g, w, h, others):
         cat.append({"op": "tier.getValuesInIntervals", "recv": h, "a": [data]})
     else:
         cat.append({"op": "tier.getValuesAtPoints", "recv": h, "a": [data, rng.random() < 0.5]})
-    for q in ("tier.timestamps", "tier.entries", "tier.iter", "tier.len"):
+    for q in ("tier.timestamps", "tier.entries", "tier.iter", "tier.len", "tier.iterpair"):
         cat.append({"op": q, "recv": h})
     cat.append({"op": "tier.eq", "recv": h, "a": [H(g.pick(anyt))]})
     cat.append({"op": "tier.validate", "recv": h, "a": [g.pick(REPORT + [BAD_OPTION])]})
@@ -793,6 +800,10 @@ def generate(run, rng):
             else:
                 fileno[0] += 1
                 path = f"/simfs/c13_{fileno[0]}.TextGrid"
+                if rng.random() < 0.15:
+                    # a file name is a file name: '$' and '~' in it mean nothing (PYTHONHASHSEED is
+                    # always set by the launcher, so an expanding save would hit another file)
+                    path = f"/simfs/c13_{fileno[0]}_" + g.pick(["$PYTHONHASHSEED", "${PYTHONHASHSEED}x", "~x"]) + ".TextGrid"
             if cfg["xio"] and rng.random() < 0.5:
                 run.do({"op": "env.fault", "a": ["enospc", rng.randrange(0, 400)]})
                 o = run.do({"op": "tg.save", "recv": tgh, "a": [path, g.pick(FORMATS), rng.random() < 0.5],
